@@ -161,6 +161,18 @@ def _run_case(ctx, case):
             ctx.judge(ok, case, sig, mech, _show(want), _show(after), detail, nontrivial)
         if not ok:
             return
+        if st.get("poke_block") and isinstance(block, list) and raised is None:
+            # the caller goes on using (and editing) the list it passed: the array must have
+            # taken the cells, not the list
+            from curtsies.formatstring import fmtstr as _f
+            block.append(_f("ZZ", "red"))
+            if len(block) > 1:
+                block[0] = _f("q" * max(1, w), "on_blue")
+            again, _ = read_display(a)
+            if again != want or len(a) != len(want):
+                ctx.judge(False, case, sig + ("poke",), "C04:array-aliases-callers-block", _show(want), _show(again),
+                          {"step": k})
+                return
         # stored length never exceeds the width
         if any(s > w for s in stored):
             ctx.judge(False, case, mech="C04:row-wider-than-array", expected=w, got=stored)
@@ -257,8 +269,13 @@ def rand_step(rng, H, W):
     for _ in range(nrows):
         L = rng.choice([0, w - 1, w, w, w, w + 1, rng.randint(0, W + 1)])
         block.append(rand_row(rng, max(0, L)))
+    whole = rng.random() < .12
+    if whole and H and W:
+        # a block that covers exactly the whole array
+        form, r0, r1, c0, c1 = "slice2d", 0, H, 0, W
+        block = [rand_row(rng, W) for _ in range(H)]
     return {"form": form, "r0": r0, "r1": r1, "c0": c0, "c1": c1, "block": block,
-            "as_fsarray": rng.random() < .15}
+            "as_fsarray": rng.random() < .15 and not whole, "poke_block": rng.random() < .4}
 
 
 def run(ctx):
